@@ -998,6 +998,10 @@ static int load_module_symbol_file(struct uftrace_symtab *symtab, const char *sy
 			*pos = '\0';
 
 		if (addr == prev_addr && type == prev_type) {
+			/* no symbol was added yet (e.g. repeated '?' or end marker lines) */
+			if (symtab->nr_sym == 0)
+				continue;
+
 			sym = &symtab->sym[symtab->nr_sym - 1];
 
 			/* for kernel symbols, replace SyS_xxx to sys_xxx */
